@@ -101,6 +101,7 @@ type genesis struct {
 	// the node is started with an ancestry list (the genesis header): it then maintains the list and checks
 	// lookup anchors of work reports against it
 	withAncestry bool
+	sharedAuthorizers bool
 	specialIDs   int // services whose identifier comes from the pool of special magnitudes / octet patterns
 }
 
@@ -156,17 +157,24 @@ func mkGenesis(t *sim.Tape) *genesis {
 	}
 	st.Alpha = make(types.AuthPools, types.CoresCount)
 	st.Varphi = make(types.AuthQueues, types.CoresCount)
+	// half of the histories: the same authorizers sit in the pools and queues of every core, so that guarantees
+	// for different cores in one block can use the same authorizer hash
+	g.sharedAuthorizers = t.Prob(1, 2, "shared_authorizers")
 	for c := 0; c < types.CoresCount; c++ {
+		cb := byte(c)
+		if g.sharedAuthorizers {
+			cb = 0
+		}
 		n := t.Choose(types.AuthPoolMaxSize+1, "pool")
 		for i := 0; i < n; i++ {
-			st.Alpha[c] = append(st.Alpha[c], types.AuthorizerHash(h256([]byte{byte(c), byte(i % 3), 0xA1}))) // duplicates on purpose
+			st.Alpha[c] = append(st.Alpha[c], types.AuthorizerHash(h256([]byte{cb, byte(i % 3), 0xA1}))) // duplicates on purpose
 		}
 		if st.Alpha[c] == nil {
 			st.Alpha[c] = types.AuthPool{}
 		}
 		st.Varphi[c] = make(types.AuthQueue, types.AuthQueueSize)
 		for i := range st.Varphi[c] {
-			st.Varphi[c][i] = types.AuthorizerHash(h256([]byte{byte(c), byte(i), 0xB2}))
+			st.Varphi[c][i] = types.AuthorizerHash(h256([]byte{cb, byte(i), 0xB2}))
 		}
 	}
 	st.Beta.History = types.BlocksHistory{}
